@@ -210,6 +210,8 @@ where
         state: OrSWotSet<NUM_SOURCES>,
     ) -> ActorMailbox<KeyspaceActor<S>> {
         let name = name.into();
+        #[cfg(datacake_verif)]
+        crate::verif::note_add_state(&name);
         let ts = self.clock.get_time().await;
         let update_counter = Arc::new(AtomicCell::new(ts));
 
